@@ -52,6 +52,21 @@ func (e *Engine) addOblig(st *State, kind, clause string, props []string, goal *
 	}
 	o.pc = st.pc
 	o.Seq = len(e.Obligs)
+	if ctx.region != nil && st.fr.parent == nil && len(st.fr.lets) > 0 {
+		// the named entry values of the region: witness terms for replaying a counterexample on the real code
+		o.Report = map[string]*smt.Term{}
+		for n, v := range st.fr.lets {
+			switch x := v.(type) {
+			case IntV:
+				o.Report[n] = x.T
+			case BoolV:
+				o.Report[n] = x.T
+			case AnyV:
+				o.Report[n] = x.T
+			}
+		}
+		o.Region = ctx.region.r.Name
+	}
 	ctx.nOblig++
 	e.Obligs = append(e.Obligs, o)
 }
